@@ -571,6 +571,10 @@ class MetropolisChain(MarkovChain):
         chain.n_parameters = int(D["n_parameters"])
         chain.probs = list(D["probs"])
         chain.inv_temp = float(D["inv_temp"])
+        chain.display_progress = bool(D["display_progress"])
+        chain.ProgressPrinter = ChainProgressPrinter(
+            display=chain.display_progress, leading_msg="advancing chain:"
+        )
 
         # re-build all the parameter objects
         chain.params = [
